@@ -5,6 +5,7 @@
 -/
 import EinoV.Model.C20Builder
 import EinoV.Proofs.C20
+import EinoV.Proofs.C20Sim
 import EinoV.Gen.FactsC20
 import EinoV.Expected.C20
 
@@ -216,7 +217,7 @@ omit hc in
     the invalid option combinations – each is an error (and, Compile being side-effect free on
     failure, the same error on every retry). -/
 theorem rejects_at_compile (o : COpts)
-    (h : b.startNodes = [] ∨ b.endNodes = [] ∨ (b.toValidate.any (fun p => !p.2.isEmpty)) = true ∨
+    (h : b.startNodes = [] ∨ b.endNodes = [] ∨ b.hasPending = true ∨
          b.hasUntyped = true ∨
          ((b.cmp = .chain ∨ b.cmp = .workflow) ∧ o.trigger ≠ .unset) ∨
          (b.cmp ≠ .workflow ∧ o.getState = true)) :
@@ -258,6 +259,41 @@ theorem rejects_dag_violations (o : COpts) (hd : isDag b o = true)
   exact ⟨k, by simp [compile, he, hp, mutatePre_off srcFacts hm, hk]⟩
 
 end rejects
+
+/-! ## the same construction sequence gives the same outcome on every attempt -/
+
+/-- **outcome_order_free_partial.**  Go iterates `g.toValidateMap` in a random order every
+    time `updateToValidateMap` runs (once per AddEdge, several times per AddBranch), and the
+    inferred pass-through types, the pending entries and therefore every later accept/reject
+    decision depend on what that loop does.  For every sequence of public Graph-API calls and
+    any two (arbitrary, state-dependent) iteration orders of that map, every call has the same
+    outcome class – ok / error / ErrGraphCompiled – in both runs.
+
+    Full statement (not proved): the same for two orders that also differ in how
+    `for endNode := range branch.endNodes` and `for node := range m` (validateDAG) iterate,
+    i.e. without the `OrdAgree` hypothesis.  What is missing: commutation of the per-end-node
+    steps of addBranch (the machinery – `update_sim`, `Reach` – is in Proofs/C20Order.lean)
+    and the confluence of Kahn's loop.  The harness covers those two orders empirically
+    (20 fresh executions of every sequence). -/
+theorem outcome_order_free_partial (im : Impl) (ord ord' : Ord) (hv : ord.Valid) (hv' : ord'.Valid)
+    (ha : OrdAgree ord ord') (cmp : Cmp) (inT outT : Ty) (st : Option Nat) (ops : List Op)
+    (hops : ∀ op ∈ ops, op.isGraphApi = true) :
+    (run srcFacts im ord (Builder.new cmp inT outT st) ops).2.1.map Outcome.cls =
+    (run srcFacts im ord' (Builder.new cmp inT outT st) ops).2.1.map Outcome.cls :=
+  run_order_free srcFacts srcFacts_guarded (by decide) (by decide) (by decide) im ord ord' hv hv' ha ops _ _ hops
+    (Or.inl ⟨Sim.refl _ rfl, Inv_new im cmp inT outT st, Inv_new im cmp inT outT st, KeysOK_new cmp inT outT st⟩)
+
+/-- the decision whether `updateToValidateMap` fails, and the types it leaves behind, are
+    functions of the state it starts from – for every iteration order (no agreement needed) -/
+theorem inference_order_free (im : Impl) (ord ord' : Ord) (hv : ord.Valid) (hv' : ord'.Valid) (T : Ty)
+    (b : Builder) (hw : WF b) (hq : Q b T) (hp : PN b) (he : b.buildError = none) :
+    (update im ord b = .error .edgeMismatch ∧ update im ord' b = .error .edgeMismatch) ∨
+    (∃ c c', update im ord b = .ok c ∧ update im ord' b = .ok c' ∧
+       (∀ k, c'.nodeIn k = c.nodeIn k) ∧ (∀ k, c'.nodeOut k = c.nodeOut k) ∧
+       (∀ s x, x ∈ getSlice c'.toValidate s ↔ x ∈ getSlice c.toValidate s)) := by
+  rcases update_sim im ord ord' hv hv' T b b (Sim.refl b he) hw hw hq hp hp with h | ⟨c, c', h1, h2, hs⟩
+  · exact Or.inl h
+  · exact Or.inr ⟨c, c', h1, h2, hs.tin, hs.tout, hs.pend⟩
 
 /-- **never a panic.** No call of the builder API, in any state, ends in a panic: every
     outcome is `ok`, an error value, or `ErrGraphCompiled`. -/
